@@ -262,3 +262,24 @@ def probe_k12_sql_unpicklable():
             return True
     finally:
         shutil.rmtree(d, ignore_errors=True)
+
+
+def probe_k4_stringmap_bare_argument():
+    """K4 (C10): a flat stringmap keys a call with ONE bare argument (def f(*args)) by str(argument):
+    f(5) and f('5') share an entry"""
+    import klepto
+    import klepto.keymaps as km
+
+    def f(*args):
+        return repr(args)
+    g = klepto.inf_cache(keymap=km.stringmap(flat=True))(f)
+    return g(5) == g('5')
+
+
+def probe_k6_posonly_kwarg_name():
+    """K6 (C10): def f(x, /, **kw): f(1, x=5) and f(1, x=6) bind differently but share a key"""
+    import klepto
+    ns = {}
+    exec("def f(x, /, **kw):\n    return (x, sorted(kw.items()))", ns)
+    g = klepto.inf_cache()(ns['f'])
+    return g(1, x=5) == g(1, x=6)
